@@ -43,6 +43,23 @@ type Config struct {
 	// An anchor that no longer exists is skipped silently (no assertion, no
 	// verdict).
 	Guards []Guard `json:"guards"`
+	// Deps: textual rewrites of, and files injected into, packages of
+	// dependencies (located with `go list -m`; module cache files are replaced
+	// through the overlay like any other path).
+	Deps []DepRewrite `json:"deps"`
+}
+
+type DepRewrite struct {
+	Module string `json:"module"`
+	// Rewrites: file (relative to the module root) -> replace every occurrence
+	// of Old by New; the anchor must occur at least once.
+	Rewrites []struct {
+		File string `json:"file"`
+		Old  string `json:"old"`
+		New  string `json:"new"`
+	} `json:"rewrites"`
+	// Inject: verif-relative source -> file name relative to the module root
+	Inject map[string]string `json:"inject"`
 }
 
 type Guard struct {
@@ -300,6 +317,71 @@ func main() {
 			replace[filepath.Join(*repo, rel)] = op
 		}
 	}
+
+	// dependencies
+	depReplaces := map[string]string{}
+	for _, d := range cfg.Deps {
+		cmd := exec.Command(*gocmd, "list", "-m", "-f", "{{.Dir}}", d.Module)
+		cmd.Dir = *repo
+		cmd.Env = goEnv()
+		o, err := cmd.Output()
+		dir := strings.TrimSpace(string(o))
+		if err != nil || dir == "" {
+			die("cannot locate dependency %s: %v", d.Module, err)
+		}
+		// files below GOMODCACHE must not be replaced through an overlay: the
+		// module is copied (sources only), rewritten, and the build's private
+		// go.mod gets a directory replacement for it (see dep_replaces.json)
+		cp := filepath.Join(*out, "deps", strings.ReplaceAll(d.Module, "/", "_"))
+		os.RemoveAll(cp)
+		filepath.Walk(dir, func(p string, info os.FileInfo, err error) error {
+			if err != nil {
+				return err
+			}
+			rel, _ := filepath.Rel(dir, p)
+			if info.IsDir() {
+				return os.MkdirAll(filepath.Join(cp, rel), 0o755)
+			}
+			if strings.HasSuffix(p, "_test.go") || !(strings.HasSuffix(p, ".go") || info.Name() == "go.mod") {
+				return nil
+			}
+			b, err := os.ReadFile(p)
+			if err != nil {
+				die("%v", err)
+			}
+			return os.WriteFile(filepath.Join(cp, rel), b, 0o644)
+		})
+		for _, rw := range d.Rewrites {
+			fp := filepath.Join(cp, rw.File)
+			b, err := os.ReadFile(fp)
+			if err != nil {
+				die("dependency file %s/%s: %v", d.Module, rw.File, err)
+			}
+			src := string(b)
+			if !strings.Contains(src, rw.Old) {
+				die("dependency anchor %q not found in %s/%s", rw.Old, d.Module, rw.File)
+			}
+			src = strings.ReplaceAll(src, rw.Old, rw.New)
+			if _, err := parser.ParseFile(token.NewFileSet(), rw.File, src, 0); err != nil {
+				die("rewritten dependency file %s does not parse: %v", rw.File, err)
+			}
+			if err := os.WriteFile(fp, []byte(src), 0o644); err != nil {
+				die("%v", err)
+			}
+		}
+		for src, name := range d.Inject {
+			b, err := os.ReadFile(filepath.Join(*verif, src))
+			if err != nil {
+				die("dependency inject %s: %v", src, err)
+			}
+			if err := os.WriteFile(filepath.Join(cp, name), b, 0o644); err != nil {
+				die("%v", err)
+			}
+		}
+		depReplaces[d.Module] = cp
+	}
+	dr, _ := json.Marshal(depReplaces)
+	os.WriteFile(filepath.Join(*out, "dep_replaces.json"), dr, 0o644)
 
 	ov, _ := json.MarshalIndent(map[string]interface{}{"Replace": replace}, "", " ")
 	if err := os.WriteFile(filepath.Join(*out, "overlay.json"), ov, 0o644); err != nil {
